@@ -77,6 +77,9 @@ type oracle struct {
 	note      string
 	tags      map[string]bool
 	strict    bool
+	// restart histories only (restart.go): what was held for a log when a restart took it out of the
+	// configuration.  The property says nothing about such a row until the log is configured again.
+	dormant map[string]*heldT
 }
 
 func (o *oracle) fail(format string, a ...interface{}) {
@@ -298,7 +301,16 @@ func (o *oracle) onGetLogs(s step) {
 		want = append(want, id)
 	}
 	sort.Strings(want)
-	if s.obs.logsErr || strings.Join(want, "|") != strings.Join(s.obs.logs, "|") {
+	got := s.obs.logs
+	if len(o.dormant) > 0 { // rows of logs that a restart took out of the configuration may or may not be listed
+		got = nil
+		for _, id := range s.obs.logs {
+			if o.dormant[id] == nil || o.held[id] != nil {
+				got = append(got, id)
+			}
+		}
+	}
+	if s.obs.logsErr || strings.Join(want, "|") != strings.Join(got, "|") {
 		o.fail("GetLogs = %v, logs with a held STH = %v", s.obs.logs, want)
 	}
 }
@@ -413,7 +425,11 @@ func (h *harness) mutateProof(kind string, w *world, t *tree, m, n uint64) [][]b
 
 // nextOp builds one update for log l given what the harness has observed to be held.
 func (h *harness) nextUpdate(w *world, l *logT, hd *heldT, ts *uint64) *opT {
-	sc := h.pickScenario()
+	return h.nextUpdateOf(h.pickScenario(), w, l, hd, ts)
+}
+
+// nextUpdateOf: the update of scenario sc (one of `scenarios`).
+func (h *harness) nextUpdateOf(sc string, w *world, l *logT, hd *heldT, ts *uint64) *opT {
 	*ts++
 	T0 := w.trees[0]
 	// the tree the held STH belongs to (if any)
@@ -660,14 +676,24 @@ type histCase struct {
 	propOK  bool
 	note    string
 	extraIn map[string]interface{}
+	// restart histories: the epochs that are over (steps = the epoch that is running); the case is then a
+	// CEpochs term
+	epochs []*epochT
 }
 
-func (h *harness) emitHist(hc *histCase) {
-	cb := newCaseBuilder()
-	curCB = cb
-	var logs []string
-	for _, l := range hc.w.logs {
-		if !l.configured {
+// epochT = one Witness value over the database: from one witness.New to the next
+type epochT struct {
+	how   string  // how the Witness value came to be: first | same-handle | reopened-file | second-instance
+	cfg   []*logT // the configured logs
+	steps []step
+}
+
+// coqLogs: the configuration as the model's table (id string, what it decodes to), and the names.
+// all = false: the members of ls that are configured now.
+func coqLogs(ls []*logT, all bool) (string, []string) {
+	var logs, names []string
+	for _, l := range ls {
+		if !all && !l.configured {
 			continue
 		}
 		idh := "None"
@@ -675,7 +701,15 @@ func (h *harness) emitHist(hc *histCase) {
 			idh = lib.Some(hx(l.idHash))
 		}
 		logs = append(logs, lib.Pair(hx([]byte(l.id)), idh))
+		names = append(names, l.name)
 	}
+	return lib.List(logs), names
+}
+
+func (h *harness) emitHist(hc *histCase) {
+	cb := newCaseBuilder()
+	curCB = cb
+	logs, _ := coqLogs(hc.w.logs, false)
 	var raws []string
 	seen := map[string]bool{}
 	for _, ri := range hc.raws {
@@ -689,21 +723,38 @@ func (h *harness) emitHist(hc *histCase) {
 		}
 		var vs []string
 		for _, l := range hc.w.logs {
-			if l.configured {
+			if l.configured || l.pool {
 				vs = append(vs, lib.Pair(hx([]byte(l.id)), lib.Bool(ri.verdict[l.id])))
 			}
 		}
 		raws = append(raws, lib.Pair(rawTag(ri.raw), lib.Some(lib.Pair(ri.p.coq(), lib.List(vs)))))
 	}
-	var ops []string
 	var inJ, obJ []interface{}
-	for _, s := range hc.steps {
-		ops = append(ops, lib.Pair(s.op.coq(), s.obs.coq()))
-		inJ = append(inJ, s.op.json())
-		obJ = append(obJ, s.obs.json())
+	coqSteps := func(steps []step) string {
+		var ops []string
+		for _, s := range steps {
+			ops = append(ops, lib.Pair(s.op.coq(), s.obs.coq()))
+			inJ = append(inJ, s.op.json())
+			obJ = append(obJ, s.obs.json())
+		}
+		return lib.List(ops)
 	}
-	env := fmt.Sprintf("{| e_logs := %s; e_raws := %s; e_hashes := %s; e_strict := code_is_strict; e_cosign_held := code_cosigns_held |}", lib.List(logs), lib.List(raws), hc.tab.coq())
-	term := cb.wrap(fmt.Sprintf("CHist %s %s", env, lib.List(ops)))
+	var ctor, body string
+	if hc.epochs == nil {
+		ctor, body = "CHist", coqSteps(hc.steps)
+	} else {
+		// the JSON mirror keeps one flat list with an entry per witness.New (the Coq term has one list per epoch)
+		var eps []string
+		for _, ep := range hc.epochs {
+			cfg, names := coqLogs(ep.cfg, true)
+			inJ = append(inJ, map[string]interface{}{"op": "witness.New", "how": ep.how, "configured_logs": names})
+			obJ = append(obJ, map[string]interface{}{"kind": "witness.New"})
+			eps = append(eps, lib.Pair(cfg, coqSteps(ep.steps)))
+		}
+		ctor, logs, body = "CEpochs", "[]", lib.List(eps)
+	}
+	env := fmt.Sprintf("{| e_logs := %s; e_raws := %s; e_hashes := %s; e_strict := code_is_strict; e_cosign_held := code_cosigns_held |}", logs, lib.List(raws), hc.tab.coq())
+	term := cb.wrap(ctor + " " + env + " " + body)
 	var tags []string
 	for t := range hc.tags {
 		tags = append(tags, t)
